@@ -18,7 +18,8 @@ EXHAUSTIVE = {"quick": False, "thorough": False}
 TRUSTED = ["props/selkit.py prints the structured selectors as source text",
            "clause unify-sound uses the implementation's own is-superselector (tied to the model by C23)"]
 ASSUMPTIONS = ["Selector::unify (inner_unify / unify_relbox) is not modelled: extend and replace are modelled with unify as a "
-               "parameter and their theorems hold for every unify; soundness of unify is tested per case, not proved"]
+               "parameter and their theorems hold for every unify; soundness of unify is tested per case (operands with descendant / "
+               "child combinators only and no pseudo-element, where rsass's is-superselector is a complete test), not proved"]
 
 
 def sq(text):
@@ -134,6 +135,8 @@ CORPUS = [
     {"kind": 1, "a": [sel(comp(el="a", ps=[["before", True, None]]))], "b": [sel(comp(ps=[["hover", False, None]]))], "c": []},
     {"kind": 1, "a": [sel(comp(ps=[["host", False, None]]))], "b": [sel(comp(cl=["foo"]))], "c": []},
     {"kind": 2, "a": [sel(comp(el="a", cl=["b"]))], "b": [sel(comp(cl=["c"]))], "c": []},
+    {"kind": 2, "a": [sel(comp(ps=[["not", False, ["s", [sel(comp(cl=["a"]))]]]]))],
+     "b": [sel(comp(ps=[["not", False, ["s", [sel(comp(cl=["a"])), sel(comp(cl=["b"]))]]]]))], "c": []},      # K2 witness
     {"kind": 2, "a": [chain(comp(cl=["x"]), "A", comp(cl=["a"]), "A", comp(cl=["c"]))], "b": [chain(comp(cl=["a"]), "P", comp(cl=["d"]))], "c": []},
     {"kind": 2, "a": [chain(comp(cl=["a"]), "A", comp(cl=["c"]))], "b": [chain(comp(cl=["a"]), "P", comp(cl=["d"]))], "c": []},
     {"kind": 2, "a": [chain(comp(cl=["x"]), "P", comp(cl=["a"]), "A", comp(cl=["c"]))], "b": [chain(comp(cl=["y"]), "A", comp(cl=["a", "b"]), "P", comp(cl=["c"]))], "c": []},
@@ -282,7 +285,8 @@ def judge(c, io, r):
     corr, ok, acls, kind, st1 = r
     return {
         "corr": None if corr == 2 else corr == 1,
-        "clauses": [(NAMES[c["kind"]], ok == 1, "known_C24_K1_append_route_differs" if acls == 1 else None)],
+        "clauses": [(NAMES[c["kind"]], ok == 1, {1: "known_C24_K1_append_route_differs",
+                                                   2: "known_C24_K2_unify_keeps_general_pseudo"}.get(acls))],
         "nontrivial": True,
         "tags": [FN[c["kind"]], ["ok", "error", "panic"][st1]],
         "show": call_of(c) + (" ; " + rule_of(c) if c["kind"] < 2 else ""),
